@@ -35,6 +35,42 @@ Definition node_universe (u : list (str * list str)) : list str := keys u ++ fla
 Definition all_imports (u : list (str * list str)) (p : str) : option (list str) :=
   visit_list str str_eqb (children_of u) (S (length (node_universe u))) (children_of u p) (Some []).
 
+(* ---------- Context: the two caches over a universe that changes (generator/generator.go) ----------
+   IncomingImports / TransitiveIncomingImports fill a cache when it is empty; AddDir / AddDirectory
+   empty both caches and change the universe (here: to the universe observed afterwards). *)
+Record ctxt := { cu : list (str * list str); cinc : option (amap (list str)); ctr : option (amap (list str)) }.
+Inductive cop := OSet (u : list (str * list str)) | OInc | OTrans.
+Definition ctx_new (u : list (str * list str)) : ctxt := {| cu := u; cinc := None; ctr := None |}.
+Definition ctx_incoming (c : ctxt) : ctxt * amap (list str) :=
+  match cinc c with
+  | Some i => (c, i)
+  | None => let i := incoming (cu c) in ({| cu := cu c; cinc := Some i; ctr := ctr c |}, i)
+  end.
+Definition ctx_step (c : ctxt) (o : cop) : ctxt * option (amap (list str)) :=
+  match o with
+  | OSet u => (ctx_new u, None)
+  | OInc => let (c', i) := ctx_incoming c in (c', Some i)
+  | OTrans => match ctr c with
+              | Some t => (c, Some t)
+              | None => let (c', i) := ctx_incoming c in
+                        let t := tclosure i in
+                        ({| cu := cu c'; cinc := cinc c'; ctr := Some t |}, Some t)
+              end
+  end.
+Fixpoint ctx_run (c : ctxt) (ops : list cop) : list (option (amap (list str))) :=
+  match ops with
+  | [] => []
+  | o :: ops' => let (c', a) := ctx_step c o in a :: ctx_run c' ops'
+  end.
+(* the specification: every answer is computed from the universe as it is when the question is asked *)
+Fixpoint ctx_spec (u : list (str * list str)) (ops : list cop) : list (option (amap (list str))) :=
+  match ops with
+  | [] => []
+  | OSet u' :: ops' => None :: ctx_spec u' ops'
+  | OInc :: ops' => Some (incoming u) :: ctx_spec u ops'
+  | OTrans :: ops' => Some (tclosure (incoming u)) :: ctx_spec u ops'
+  end.
+
 (* ---------- rules ---------- *)
 Record rule := { sel : list str; allowed : list str; forbidden : list str; transitive : bool }.
 Definition matches (r : rule) (v : str) : bool := mem_str v (sel r).
@@ -145,4 +181,26 @@ Definition run_allimports (inp : sexp) : option sexp :=
   | L [ug; A p] => match d_graph ug with
                    | Some ug => Some (match all_imports ug p with Some l => elist estr (sort_strs l) | None => etag "out-of-fuel" [] end)
                    | None => None end
+  | _ => None end.
+
+(* IncomingImports of a universe: values and keys sorted (the harness sorts what it observed) *)
+Definition sorted_map (m : amap (list str)) : sexp :=
+  elist (epair estr (elist estr)) (sort_by_key (map (fun kv => (fst kv, sort_strs (snd kv))) m)).
+Definition run_incoming (inp : sexp) : option sexp :=
+  match d_graph inp with
+  | Some ug => Some (sorted_map (incoming ug))
+  | None => None end.
+
+(* a history of questions and universe changes on one Context *)
+Definition d_cop : dec cop := fun x =>
+  match x with
+  | L [A t; g] => if str_eqb t (s "set") then option_map OSet (d_graph g) else None
+  | L [A t] => if str_eqb t (s "inc") then Some OInc else if str_eqb t (s "trans") then Some OTrans else None
+  | _ => None end.
+Definition run_history (inp : sexp) : option sexp :=
+  match inp with
+  | L [g0; ops] =>
+    match d_graph g0, dlist d_cop ops with
+    | Some u0, Some ops => Some (elist (eopt sorted_map) (ctx_run (ctx_new u0) ops))
+    | _, _ => None end
   | _ => None end.
